@@ -24,12 +24,19 @@ import (
 
 type link struct{ from, to uint16 }
 
+type lateMsg struct {
+	at time.Time
+	l  link
+	m  *IncMessage
+}
+
 type snet struct {
 	mu       sync.Mutex
 	n        int
 	nodes    []MpcParty
 	queues   map[link][]*IncMessage
 	busy     map[link]bool
+	late     []lateMsg // Byzantine runs: acknowledgements about the deviating sender, released after a delay (reordering)
 	order    []link
 	rng      *prng
 	byz      uint16
@@ -42,10 +49,20 @@ type snet struct {
 	sent     int
 	panics   []string
 	teardown int
+	logs     map[string]int
 }
 
 func (nw *snet) enqueue(from, to uint16, m *IncMessage) {
 	l := link{from, to}
+	if nw.byz != 0 && from != nw.byz && to != nw.byz && m.MsgType == uint8(MsgTypeMPC) && len(m.Data) > 0 && m.Data[0] != 0xFF {
+		// the network is the adversary's: what honest parties say about the deviating sender's broadcasts reaches the
+		// other honest parties late (C05 quantifies over delivery schedules; links need not be FIFO here)
+		if _, sender, _, err := threshold.VerifRBCAck(m.Data); err == nil && sender == nw.byz {
+			nw.late = append(nw.late, lateMsg{time.Now().Add(1500 * time.Millisecond), l, m})
+			nw.sent++
+			return
+		}
+	}
 	if _, ok := nw.queues[l]; !ok {
 		nw.order = append(nw.order, l)
 	}
@@ -107,6 +124,14 @@ func (nw *snet) schedule() {
 		default:
 		}
 		nw.mu.Lock()
+		for len(nw.late) > 0 && time.Now().After(nw.late[0].at) {
+			lm := nw.late[0]
+			nw.late = nw.late[1:]
+			if _, ok := nw.queues[lm.l]; !ok {
+				nw.order = append(nw.order, lm.l)
+			}
+			nw.queues[lm.l] = append(nw.queues[lm.l], lm.m)
+		}
 		var ready []link
 		for _, l := range nw.order {
 			if len(nw.queues[l]) > 0 && !nw.busy[l] {
@@ -158,11 +183,25 @@ func (l capLog) note(f string, a ...interface{}) {
 	if debugLog {
 		fmt.Fprintf(os.Stderr, "%s %d %s\n", time.Now().Format("05.000"), l.id, m)
 	}
+	l.nw.mu.Lock()
 	if strings.Contains(m, "pre-signing topic") {
-		l.nw.mu.Lock()
 		l.nw.teardown++
-		l.nw.mu.Unlock()
 	}
+	// classes of reports, for the record only (digits and hex runs blanked)
+	key := []byte(m)
+	for i, c := range key {
+		if (c >= '0' && c <= '9') || (c >= 'a' && c <= 'f' && i+1 < len(key) && ((key[i+1] >= '0' && key[i+1] <= '9') || (key[i+1] >= 'a' && key[i+1] <= 'f'))) {
+			key[i] = '#'
+		}
+	}
+	if len(key) > 90 {
+		key = key[:90]
+	}
+	if l.nw.logs == nil {
+		l.nw.logs = map[string]int{}
+	}
+	l.nw.logs[string(key)]++
+	l.nw.mu.Unlock()
 }
 func (l capLog) Warnf(f string, a ...interface{})  { l.note(f, a...) }
 func (l capLog) Errorf(f string, a ...interface{}) { l.note(f, a...) }
@@ -213,26 +252,27 @@ func materialOf(data []byte) (string, *bls.StoredData) {
 }
 
 type jStack struct {
-	Kind        string   `json:"kind"`
-	ID          int      `json:"id"`
-	Mode        string   `json:"mode"` // loud | silent
-	N           int      `json:"n"`
-	T           int      `json:"t"`
-	Fault       string   `json:"fault"` // none | equivocate | equivocate-selfack
-	Byz         int      `json:"byz"`
-	GroupB      []int    `json:"group_b"`
-	KeyGen      []string `json:"keygen"`    // per party: ok | err | timeout | panic
-	Materials   int      `json:"materials"` // number of different (tpk, pks) among honest parties that returned ok
-	Outcome     string   `json:"outcome"`   // all-ok | all-err | some-ok-consistent | split
-	SignRuns    int      `json:"sign_runs"`
-	SignOK      int      `json:"sign_ok"`     // sessions in which every participant obtained a partial signature
-	Verified    int      `json:"verified"`    // ... whose aggregate verifies under the reported threshold key
-	Teardown    int      `json:"teardown"`    // "Failed synchronizing on pre-signing topic" reports (known finding C01-a)
-	Undelivered int      `json:"undelivered"` // messages still queued when the scenario ended
-	SignFails   []string `json:"sign_fails"`  // topics of the sessions in which some participant got no signature
-	Panics      []string `json:"panics"`
-	Sent        int      `json:"sent"`
-	Millis      int64    `json:"ms"`
+	Kind        string         `json:"kind"`
+	ID          int            `json:"id"`
+	Mode        string         `json:"mode"` // loud | silent
+	N           int            `json:"n"`
+	T           int            `json:"t"`
+	Fault       string         `json:"fault"` // none | equivocate | equivocate-selfack
+	Byz         int            `json:"byz"`
+	GroupB      []int          `json:"group_b"`
+	KeyGen      []string       `json:"keygen"`    // per party: ok | err | timeout | panic
+	Materials   int            `json:"materials"` // number of different (tpk, pks) among honest parties that returned ok
+	Outcome     string         `json:"outcome"`   // all-ok | all-err | some-ok-consistent | split
+	SignRuns    int            `json:"sign_runs"`
+	SignOK      int            `json:"sign_ok"`     // sessions in which every participant obtained a partial signature
+	Verified    int            `json:"verified"`    // ... whose aggregate verifies under the reported threshold key
+	Teardown    int            `json:"teardown"`    // "Failed synchronizing on pre-signing topic" reports (known finding C01-a)
+	Undelivered int            `json:"undelivered"` // messages still queued when the scenario ended
+	SignFails   []string       `json:"sign_fails"`  // topics of the sessions in which some participant got no signature
+	Logs        map[string]int `json:"logs"`        // warnings / errors of the stack by class (for diagnosis; not compared)
+	Panics      []string       `json:"panics"`
+	Sent        int            `json:"sent"`
+	Millis      int64          `json:"ms"`
 }
 
 func tsubsets(n, t int) [][]uint16 {
@@ -402,12 +442,31 @@ func runStackScenario(id int, silent bool, n, t int, fault string, seed uint64, 
 			}
 		}
 	}
+	// let the network drain: what is still queued are answers to sessions that are over
+	for k := 0; k < 20000; k++ {
+		nw.mu.Lock()
+		left := len(nw.late)
+		for l, q := range nw.queues {
+			left += len(q)
+			if nw.busy[l] {
+				left++
+			}
+		}
+		nw.mu.Unlock()
+		if left == 0 || (nw.byz != 0 && k > 4000) {
+			break
+		}
+		time.Sleep(100 * time.Microsecond)
+	}
+	// the report of a failed synchronisation is written by the synchroniser's goroutine after Sign has returned
+	time.Sleep(150 * time.Millisecond)
 	close(nw.stop)
 	nw.wg.Wait()
 	nw.mu.Lock()
 	sc.Panics = append(sc.Panics, nw.panics...)
 	sc.Sent = nw.sent
 	sc.Teardown = nw.teardown
+	sc.Logs = nw.logs
 	for _, q := range nw.queues {
 		sc.Undelivered += len(q)
 	}
